@@ -55,7 +55,26 @@ def check(ck):
     fload = prog.func("jsonclass", "load")
     # ---- C15.1 purity -----------------------------------------------------------------------------
     n1 = 0
-    for fi, param in ((fdump, "obj"), (fload, "obj"), (prog.func("jsonclass", "_find_fields"), "obj")):
+    scan = [(fdump, "obj"), (fload, "obj")]
+    for hf in prog.module_funcs("jsonclass"):
+        if hf.fq in (fdump.fq, fload.fq):
+            continue
+        # helpers: a parameter is the caller's data unless every call site passes a freshly created object
+        callers = q.all_call_sites(prog, lambda r, c, hf=hf: isinstance(r, type(hf)) and r.fq == hf.fq, modules=("jsonclass",))
+        for i, p in enumerate(hf.params):
+            fresh_everywhere = bool(callers)
+            for (cf, cn, cc) in callers:
+                a = cc.args[i] if i < len(cc.args) else None
+                if a is None:
+                    fresh_everywhere = False
+                    continue
+                ta = prov.origin(cfg_of(cf), cn, a)
+                for alt in prov.alts(ta):
+                    if not (common.is_fresh(alt) or (cf.fq == hf.fq and alt == ("param", p))):
+                        fresh_everywhere = False
+            if not fresh_everywhere:
+                scan.append((hf, p))
+    for fi, param in scan:
         g = cfg_of(fi)
         for (n, desc, recv) in common.mutations(fi):
             t = prov.origin(g, n, recv)
